@@ -191,36 +191,42 @@ struct HttpReq {
 /// number of coming requests the mock agent answers with 503
 static FAIL_NEXT: std::sync::atomic::AtomicU32 = std::sync::atomic::AtomicU32::new(0);
 
-fn http_server() -> (u16, Receiver<HttpReq>) {
-    let server = tiny_http::Server::http("127.0.0.1:0").unwrap();
-    let port = server.server_addr().to_ip().unwrap().port();
+/// the mock agent listens on the IPv4 and on the IPv6 loopback address (an agent address is a
+/// `SocketAddr` of either family); both listeners feed one channel
+fn http_server() -> (u16, u16, Receiver<HttpReq>) {
     let (tx, rx) = channel();
-    std::thread::spawn(move || loop {
-        match server.recv() {
-            Ok(mut rq) => {
-                let mut body = Vec::new();
-                let _ = rq.as_reader().read_to_end(&mut body);
-                let r = HttpReq {
-                    method: rq.method().to_string(),
-                    url: rq.url().to_string(),
-                    headers: rq.headers().iter().map(|h| (h.field.to_string().to_lowercase(), h.value.to_string())).collect(),
-                    body,
-                };
-                // an agent that is overloaded or restarting answers 503 to some requests
-                if FAIL_NEXT.load(std::sync::atomic::Ordering::SeqCst) > 0 {
-                    FAIL_NEXT.fetch_sub(1, std::sync::atomic::Ordering::SeqCst);
-                    let _ = rq.respond(tiny_http::Response::from_string("unavailable").with_status_code(503));
-                    continue;
+    let mut ports = vec![];
+    for bind in ["127.0.0.1:0", "[::1]:0"] {
+        let server = tiny_http::Server::http(bind).unwrap();
+        ports.push(server.server_addr().to_ip().unwrap().port());
+        let tx = tx.clone();
+        std::thread::spawn(move || loop {
+            match server.recv() {
+                Ok(mut rq) => {
+                    let mut body = Vec::new();
+                    let _ = rq.as_reader().read_to_end(&mut body);
+                    let r = HttpReq {
+                        method: rq.method().to_string(),
+                        url: rq.url().to_string(),
+                        headers: rq.headers().iter().map(|h| (h.field.to_string().to_lowercase(), h.value.to_string())).collect(),
+                        body,
+                    };
+                    // an agent that is overloaded or restarting answers 503 to some requests
+                    if FAIL_NEXT.load(std::sync::atomic::Ordering::SeqCst) > 0 {
+                        FAIL_NEXT.fetch_sub(1, std::sync::atomic::Ordering::SeqCst);
+                        let _ = rq.respond(tiny_http::Response::from_string("unavailable").with_status_code(503));
+                        continue;
+                    }
+                    let _ = rq.respond(tiny_http::Response::from_string("{}"));
+                    if tx.send(r).is_err() {
+                        return;
+                    }
                 }
-                let _ = rq.respond(tiny_http::Response::from_string("{}"));
-                if tx.send(r).is_err() {
-                    return;
-                }
+                Err(_) => return,
             }
-            Err(_) => return,
-        }
-    });
-    (port, rx)
+        });
+    }
+    (ports[0], ports[1], rx)
 }
 
 #[derive(Debug, Clone, Default)]
@@ -491,6 +497,7 @@ enum Case {
 struct Env {
     udp: UdpSink,
     http_port: u16,
+    http_port6: u16,
     http_rx: Receiver<HttpReq>,
 }
 
@@ -520,7 +527,10 @@ fn run_case(env: &Env, c: &Case) -> Outcome {
         }
         Case::Datadog { batch } => {
             while env.http_rx.try_recv().is_ok() {}
-            let mut rep = fastrace_datadog::DatadogReporter::new(format!("127.0.0.1:{}", env.http_port).parse().unwrap(), cfg().service, cfg().resource, cfg().ty);
+            // the agent's address is of either family (derived from the batch, so that the case stays
+            // a pure function of its data)
+            let agent: std::net::SocketAddr = if batch.len() % 4 == 1 { format!("[::1]:{}", env.http_port6) } else { format!("127.0.0.1:{}", env.http_port) }.parse().unwrap();
+            let mut rep = fastrace_datadog::DatadogReporter::new(agent, cfg().service, cfg().resource, cfg().ty);
             // a reporter lives as long as the process: in a third of the cases earlier batches went
             // through it, the agent answering 503 to one of them (derived from the batch itself so
             // that the case stays a pure function of its data)
@@ -538,9 +548,17 @@ fn run_case(env: &Env, c: &Case) -> Outcome {
             rep.report(batch.iter().map(|r| r.to_record()).collect());
             let mut reqs = vec![];
             if !batch.is_empty() {
-                match env.http_rx.recv_timeout(Duration::from_secs(10)) {
+                // report() sends synchronously: the request has arrived when it returns. The first
+                // miss of a process is believed only after 10 s; while that failure is being shrunk
+                // the wait is short (the shrunk case is replayed with the long wait by the driver)
+                static MISSED: std::sync::atomic::AtomicBool = std::sync::atomic::AtomicBool::new(false);
+                let wait = if MISSED.load(std::sync::atomic::Ordering::SeqCst) { Duration::from_millis(400) } else { Duration::from_secs(10) };
+                match env.http_rx.recv_timeout(wait) {
                     Ok(r) => reqs.push(r),
-                    Err(_) => return Outcome::Viols(vec![v("dd-no-request", "no HTTP request arrived within 10 s of report() returning")]),
+                    Err(_) => {
+                        MISSED.store(true, std::sync::atomic::Ordering::SeqCst);
+                        return Outcome::Viols(vec![v("dd-no-request", format!("no HTTP request arrived at the agent ({}) after report() returned", agent))]);
+                    }
                 }
             }
             std::thread::sleep(Duration::from_millis(if batch.is_empty() { 20 } else { 0 }));
@@ -715,8 +733,8 @@ fn worker(args: &[String]) -> i32 {
     let cases: u32 = arg(args, "--cases").unwrap_or("100").parse().unwrap();
     let out = arg(args, "--out").expect("--out");
     let known: Vec<String> = arg(args, "--known").map(|k| k.split("||").filter(|s| !s.is_empty()).map(|s| s.to_string()).collect()).unwrap_or_default();
-    let (http_port, http_rx) = http_server();
-    let env = Env { udp: UdpSink::new(), http_port, http_rx };
+    let (http_port, http_port6, http_rx) = http_server();
+    let env = Env { udp: UdpSink::new(), http_port, http_port6, http_rx };
     let strategy = case_strategy(variant);
     let cfg = Config { cases, failure_persistence: None, max_shrink_iters: 600, ..Config::default() };
     let mut runner = TestRunner::new_with_rng(cfg, TestRng::from_seed(RngAlgorithm::ChaCha, &seed_bytes(seed, wid, variant)));
@@ -797,8 +815,8 @@ fn replay(args: &[String]) -> i32 {
     } else {
         serde_json::from_value(vj["program"].clone()).expect("case")
     };
-    let (http_port, http_rx) = http_server();
-    let env = Env { udp: UdpSink::new(), http_port, http_rx };
+    let (http_port, http_port6, http_rx) = http_server();
+    let env = Env { udp: UdpSink::new(), http_port, http_port6, http_rx };
     let viols = match run_case(&env, &c) {
         Outcome::Viols(vv) => vv,
         Outcome::Inconclusive(m) => {
